@@ -340,7 +340,7 @@ func (s *verifC11Suite) TestVerifC11(c *C) {
 		"refresh.retain=3, classic device; hooks are no-ops",
 		"state key merges fixtures equal up to renaming of revisions and clock values; sequential settle")
 	cfg := vCfg{Retain: "3"}
-	depth := r.Pick(4, 5)
+	depth := r.Pick(4, 6)
 	budget := r.Pick(1, 2)
 	if v := os.Getenv("VERIF_C11_DEPTH"); v != "" {
 		fmt.Sscanf(v, "%d,%d", &depth, &budget)
